@@ -318,7 +318,7 @@ VSsetattr(int32 vsid, int32 findex, const char *attrname, int32 datatype, int32 
                     HGOTO_ERROR(DFE_NOVS, FAIL);
                 if (NULL == (attr_vs = attr_inst->vs))
                     HGOTO_ERROR(DFE_BADPTR, FAIL);
-                if (strcmp(attr_vs->vsname, attrname) == 0) {
+                if (strncmp(attr_vs->vsname, attrname, VSNAMELENMAX) == 0) { /* names are stored with at most VSNAMELENMAX chars */
                     attr_w = &attr_vs->wlist;
                     if (attr_w->n != 1 || datatype != attr_w->type[0] || count != attr_w->order[0]) {
                         VSdetach(attr_vsid);
@@ -517,7 +517,7 @@ VSfindattr(int32 vsid, int32 findex, const char *attrname)
                 VSdetach(attr_vsid);
                 HGOTO_ERROR(DFE_BADATTR, FAIL);
             }
-            if (!strcmp(attr_vs->vsname, attrname)) {
+            if (!strncmp(attr_vs->vsname, attrname, VSNAMELENMAX)) {
                 ret_value = a_index;
                 found     = 1;
             }
@@ -814,7 +814,7 @@ Vsetattr(int32 vgid, const char *attrname, int32 datatype, int32 count, const vo
                 HGOTO_ERROR(DFE_NOVS, FAIL);
             if (NULL == (vs = vs_inst->vs))
                 HGOTO_ERROR(DFE_BADPTR, FAIL);
-            if (strcmp(vs->vsname, attrname) == 0) {
+            if (strncmp(vs->vsname, attrname, VSNAMELENMAX) == 0) { /* names are stored with at most VSNAMELENMAX chars */
                 w = &vs->wlist;
                 if (w->n != 1 || w->type[0] != datatype || w->order[0] != count) {
                     VSdetach(vsid);
@@ -1160,7 +1160,7 @@ Vfindattr(int32 vgid, const char *attrname)
             HGOTO_ERROR(DFE_NOVS, FAIL);
         if (NULL == (vs = vs_inst->vs) || strcmp(vs->vsclass, _HDF_ATTRIBUTE) != 0)
             HGOTO_ERROR(DFE_BADATTR, FAIL);
-        if (0 == strcmp(vs->vsname, attrname)) {
+        if (0 == strncmp(vs->vsname, attrname, VSNAMELENMAX)) {
             ret_value = i;
             found     = 1;
         }
